@@ -34,6 +34,7 @@ def checkLine (line : String) : String × String × Verdict :=
         | "udiv" => checkUDiv op args r
         | "ord" => checkOrd op args r
         | "gcd" => checkGcd op args r
+        | "res" => checkRes op args r
         | "ugcd" => checkUGcd op args r
         | "refs" => checkRefs args r
         | _ => Verdict.skip s!"unknown family {fam}"
